@@ -118,6 +118,56 @@ theorem each_endpoint_at_most_once (os : List Outcome) :
 example : ((run [.otherErr, .accept, .accept, .accept]).contacted.filter
     (fun j => [Outcome.otherErr, .accept, .accept, .accept][j]? = some Outcome.accept)) = [1] := by decide
 
+/-! ### 3'. exactly one transaction — on what the ENDPOINTS did (round 5, review E #2)
+
+`at_most_one_accept` counts the endpoints at which `f` RETURNED a transaction.  The property speaks of the endpoints that
+ACCEPTED one.  The two differ when an endpoint processes `eth_sendRawTransaction` and the connection fails before its
+reply arrives (`acceptedReplyLost`): `f` reports a transport error, the loop fails over, the next endpoint signs the call
+again with its own pending nonce.  KNOWN FINDING `accepted-reply-lost-resent` (KNOWN_FINDINGS.txt; replayed on the real
+adaptor in every run: `seq` lines with the outcome `lost`). -/
+
+/-- the FULL statement: whatever the endpoints do (any possible combination of report and fact), at most one of them takes
+a transaction of one request.  NOT true of the code: `accepted_reply_lost_resent`. -/
+def exactly_one_transaction_full : Prop :=
+  ∀ eps : List EpRun, (∀ e ∈ eps, e.possible = true) → (takenBy true eps).length ≤ 1
+
+/-- what IS true: if no endpoint's reply is lost after it accepted (every report of `f` tells what the endpoint did), at
+most one endpoint takes a transaction, for any number of endpoints and every assignment. -/
+theorem exactly_one_transaction_partial (eps : List EpRun) (hp : ∀ e ∈ eps, e.possible = true)
+    (hno : ∀ e ∈ eps, e ≠ acceptedReplyLost) : (takenBy true eps).length ≤ 1 := by
+  have key : takenBy true eps =
+      (run (eps.map (·.outcome))).contacted.filter (fun j => (eps.map (·.outcome))[j]? = some Outcome.accept) := by
+    unfold takenBy run
+    apply List.filter_congr
+    intro i _
+    cases hi : eps[i]? with
+    | none => simp [hi]
+    | some e =>
+      have hm : e ∈ eps := List.mem_of_getElem? hi
+      have h1 := hp e hm
+      have h2 := hno e hm
+      obtain ⟨o, t⟩ := e
+      simp only [List.getElem?_map, hi, Option.map_some]
+      cases o <;> cases t <;> simp_all [EpRun.possible, acceptedReplyLost]
+  rw [key]
+  exact at_most_one_accept _
+
+example : takenBy true [⟨.otherErr, false⟩, ⟨.nonceErr, false⟩, ⟨.accept, true⟩, ⟨.accept, true⟩] = [2] := by decide
+
+/-- **negation witness** (the code as it is): endpoint 0 accepts the transaction and its reply is lost, endpoint 1 is
+healthy: BOTH take a transaction of the one request — the second one signed with endpoint 1's pending nonce. -/
+theorem accepted_reply_lost_resent : ¬ exactly_one_transaction_full := by
+  intro h
+  have := h [acceptedReplyLost, ⟨.accept, true⟩] (by decide)
+  revert this
+  decide
+
+/-- the same fault with no healthy endpoint left: the transaction is on its way to the chain and the caller is told the
+call failed (sig `accepted-reply-lost-reported-as-failure`; no client can know without asking for the hash) -/
+theorem accepted_reply_lost_reported_as_failure :
+    takenBy true [acceptedReplyLost] = [0] ∧
+    (run [acceptedReplyLost.outcome]).reply = some { idx := 0, accepted := false, err := some .otherErr } := by decide
+
 /-- **4. result error**: whenever the loop replies, the error it reports is nil iff some contacted
 endpoint accepted the transaction (and exactly then a transaction is handed back).  This is the
 statement the code before commit 6226eed violates (`f8_before_fix`). -/
